@@ -318,44 +318,46 @@ func runC05(c *core.Ctx) {
 		for pre := 0; pre < 8; pre++ {
 			for dm := 1; dm < 8; dm++ {
 				for vi, v := range vals {
-					data := map[string]interface{}{}
-					for i, k := range keys {
-						if dm&(1<<i) != 0 {
-							data[k] = v
-						}
-					}
-					for _, mode := range []string{"merge", "copy"} {
-						var preOpts []event.Option
-						model := map[string]interface{}{}
+					for pvi, pv := range []interface{}{"old", "", 7, true, []byte{0, 0xff}, uint16(22)} { // what the event already holds
+						data := map[string]interface{}{}
 						for i, k := range keys {
-							if pre&(1<<i) != 0 {
-								preOpts = append(preOpts, event.Custom(k, "old"))
-								model[k] = "old"
+							if dm&(1<<i) != 0 {
+								data[k] = v
 							}
 						}
-						e := event.New(preOpts...)
-						if mode == "merge" {
-							event.MergeFrom(data)(e)
-							for k, v := range data {
-								if _, ok := model[k]; !ok {
+						for _, mode := range []string{"merge", "copy"} {
+							var preOpts []event.Option
+							model := map[string]interface{}{}
+							for i, k := range keys {
+								if pre&(1<<i) != 0 {
+									preOpts = append(preOpts, event.Custom(k, pv))
+									model[k] = pv
+								}
+							}
+							e := event.New(preOpts...)
+							if mode == "merge" {
+								event.MergeFrom(data)(e)
+								for k, v := range data {
+									if _, ok := model[k]; !ok {
+										model[k] = v
+									}
+								}
+							} else {
+								event.CopyFrom(data)(e)
+								for k, v := range data {
 									model[k] = v
 								}
 							}
-						} else {
-							event.CopyFrom(data)(e)
-							for k, v := range data {
-								model[k] = v
+							if d := eqMap(event.ToMap(e), model); d != "" {
+								c.Violationf("C05:"+mode, "%s pre=%03b (holding %#v) data=%03b val#%d: %s", mode, pre, pv, dm, vi, d)
 							}
+							if _, err := marshalLikeChannels(e); err != nil {
+								c.Violationf("C05:"+mode+"-json", "%s pre=%03b data=%03b val#%d: %v", mode, pre, dm, vi, err)
+							}
+							c.Count("merges", 1)
+							c.Count("executions", 1)
+							c.Outcome(mode, fmt.Sprint(pre, dm, vi, pvi))
 						}
-						if d := eqMap(event.ToMap(e), model); d != "" {
-							c.Violationf("C05:"+mode, "%s pre=%03b data=%03b val#%d: %s", mode, pre, dm, vi, d)
-						}
-						if _, err := marshalLikeChannels(e); err != nil {
-							c.Violationf("C05:"+mode+"-json", "%s pre=%03b data=%03b val#%d: %v", mode, pre, dm, vi, err)
-						}
-						c.Count("merges", 1)
-						c.Count("executions", 1)
-						c.Outcome(mode, fmt.Sprint(pre, dm, vi))
 					}
 				}
 			}
